@@ -192,7 +192,28 @@ func checkC01(c *CaseC01, fl *Fails) {
 	}
 }
 
+// trackC01: a dense one-directional track (steps of about a metre), northwards or eastwards: each point's ID must not
+// depend on its predecessors in the list.
+func trackC01(n int, h, v int64, north bool) *CaseC01 {
+	c := &CaseC01{H: h, V: v}
+	for i := 0; i < n; i++ {
+		p := Pt{F64(139.767125), F64(35.681236 + 9.1e-6*float64(i)), F64(12.5)}
+		if !north {
+			p = Pt{F64(139.767125 + 1.1e-5*float64(i)), F64(35.681236), F64(12.5 - 0.01*float64(i))}
+		}
+		c.Pts = append(c.Pts, p)
+	}
+	return c
+}
+
 func sweepC01(tier string, emit func(*CaseC01)) {
+	for _, h := range []int64{25, 26, 28, 33} {
+		if tier == "quick" && h == 26 {
+			continue
+		}
+		emit(trackC01(4000, h, 25, true))
+		emit(trackC01(4000, h, 30, false))
+	}
 	emit(bigListC01(66000, 20, 20))
 	// round list lengths (block / batch sizes inside an implementation): n-4 filler points + 4 -> 1024, 2048, 4096 and neighbours
 	for _, n := range []int{1020, 1019, 1021, 2044, 4092, 508, 252} {
